@@ -148,6 +148,11 @@ def run(tier):
         for complaint in judge(h.shape_name, rule, unrec, cs, verdict):
             chk.violation(key_for(h.shape_name, rule, "real"), "real run: %s outcomes=%s schedule=%s: %s" % (h.shape_name, h.oa, h.sched, complaint), rp)
     chk.cov["real_cases_with_more_than_one_outcome"] = sum(1 for v in per_case.values() if len(v) > 1)
+    # how much of what the model allows did the sampled schedules of the real code actually reach?
+    allowed = sum(len(terms[k]) for k in per_case)
+    reached = sum(len(per_case[k] & terms[k]) for k in per_case)
+    chk.cov["model_terminal_states_of_sampled_cases"] = allowed
+    chk.cov["of_which_reached_by_real_runs"] = reached
     h = runs[0]
     chk.sample(dict(shape=h.shape_name, outcomes=h.oa, schedule=h.sched, final={k: v["cs"] for k, v in h.final["comps"].items()},
                     verdict=h.final["verdict"], spec_terminals=[list(map(list, t)) for t in sorted(terms[(h.sid, tuple(h.oa))])]))
